@@ -654,6 +654,9 @@ fn main() {
                     let ev = sys.step(&op);
                     feedback(&mut bal, &op, &ev);
                     t.step(ev);
+                    if edge && bal.values().any(|v| fine_small_part(*v) > 60) {
+                        break;
+                    }
                 }
             }
             t.finish();
